@@ -18,6 +18,10 @@
 struct verif_in {
 	int wstate[2];     /* what the writer function of level 0 / 1 reports */
 	int ready[2];      /* whether a write was scheduled for that level */
+	/* io_writer_step */
+	int ws_state, ws_done;
+	unsigned ws_index, ws_writer_index;
+	int ws_before[4];
 };
 VERIF_DECLARE_IN
 
@@ -59,5 +63,59 @@ void h_io_mono_writer(void)
 			VERIF_ASSERT(writer_error[k] == 0, "no error is reported when every parity write succeeded");
 	VERIF_CANARY();
 }
+
+/*
+ * The threaded path, one call at a time (io_writer_step, REAL code above): the state a parity writer thread ended its task with
+ * is counted under the io mutex - every one of the four error states in its own counter, nothing for a completed task - before
+ * the thread takes the next scheduled task (or stops when told so).  These counters are the ONLY way state_sync_process learns
+ * that a parity block was not written.  Sequential semantics only: the mutex / condition functions are stubs, a wait ends with
+ * the "done" event; the interleaving of the threads is outside contract-based verification.
+ */
+#ifdef VERIF_CBMC
+static struct snapraid_io *g_wait_io;
+static int g_locked;
+void thread_mutex_lock(thread_mutex_t *mutex) { (void)mutex; ++g_locked; }
+void thread_mutex_unlock(thread_mutex_t *mutex) { (void)mutex; --g_locked; }
+void thread_cond_signal_and_unlock(thread_cond_t *cond, thread_mutex_t *mutex) { (void)cond; (void)mutex; --g_locked; }
+void thread_cond_wait(thread_cond_t *cond, thread_mutex_t *mutex) { (void)cond; (void)mutex; g_wait_io->done = 1; }
+#endif
+
+void h_io_writer_step(void)
+{
+	static struct snapraid_io io;
+	static struct snapraid_worker W;
+	struct snapraid_task *t;
+	unsigned k, next;
+	VERIF_INPUTS();
+#ifdef VERIF_NATIVE
+	exit(77);
+#else
+	VERIF_ASSUME(IN.ws_state >= TASK_STATE_IOERROR_CONTINUE && IN.ws_state <= TASK_STATE_DONE);
+	VERIF_ASSUME(IN.ws_index < 4 && IN.ws_writer_index < 4);
+	io.io_max = 4;
+	io.writer_index = IN.ws_writer_index;
+	io.done = IN.ws_done != 0;
+	for (k = 0; k < IO_WRITER_ERROR_MAX; ++k) {
+		VERIF_ASSUME(IN.ws_before[k] >= 0 && IN.ws_before[k] < 1000);
+		io.writer_error[k] = IN.ws_before[k];
+	}
+	W.io = &io;
+	W.index = IN.ws_index;
+	g_wait_io = &io;
+	g_locked = 0;
+	next = (IN.ws_index + 1) % 4;
+	t = io_writer_step(&W, IN.ws_state);
+	for (k = 0; k < IO_WRITER_ERROR_MAX; ++k)
+		VERIF_ASSERT(io.writer_error[k] == IN.ws_before[k] + ((IN.ws_state < 0 && (int)k == IN.ws_state - IO_WRITER_ERROR_BASE) ? 1 : 0),
+			"a parity write that ended in an error state - I/O error included - is counted once in the counter of that state, a completed write in none (threaded path)");
+	if (next != IN.ws_writer_index)
+		VERIF_ASSERT(t == &W.task_map[next] && W.index == next, "the thread takes the next scheduled task");
+	else
+		VERIF_ASSERT(t == 0 && W.index == IN.ws_index, "without scheduled work the thread stops when told so");
+	VERIF_ASSERT(g_locked == 0, "the io mutex is released");
+#endif
+	VERIF_CANARY();
+}
+
 
 #include "verif_tail.h"
